@@ -1,7 +1,8 @@
-use nom::{bytes::complete::tag, combinator::value, Parser};
+use nom::{combinator::value, Parser};
 
 use crate::{input::Input, intermediate::*};
 
+use super::common::keyword_pair;
 use super::{common::skip_ws_and_comments, error::ParserResult};
 
 /// Tries to parse an ASN1 EMBEDDED PDV
@@ -23,7 +24,7 @@ use super::{common::skip_ws_and_comments, error::ParserResult};
 pub fn embedded_pdv(input: Input<'_>) -> ParserResult<'_, ASN1Type> {
     value(
         ASN1Type::EmbeddedPdv,
-        skip_ws_and_comments(tag(EMBEDDED_PDV)),
+        skip_ws_and_comments(keyword_pair(EMBEDDED_PDV)),
     )
     .parse(input)
 }
